@@ -122,7 +122,20 @@ class Check:
             line = fi.node.lineno
         return "{}:{}".format(fi.module.relpath, line)
 
+    def _known_keys(self) -> set:
+        return {k["key"] for k in load_known()
+                if k.get("property") == self.prop and
+                k.get("status") == "known"}
+
     def check_floors(self) -> None:
+        if any(info["violations"] > 0 for info in self.rules.values()):
+            # the run already ends in a verdict (VIOLATION or a listed
+            # finding); a construct that a reported change removed must not
+            # turn that verdict into an analysis error.  Known findings are
+            # present on the unchanged tree too, so floors are calibrated
+            # with them counted and still apply below.
+            if any(f.key not in self._known_keys() for f in self.findings):
+                return
         for rid, info in self.rules.items():
             if info["violations"] > 0:
                 continue   # the rule found its subjects and reports them
